@@ -290,6 +290,7 @@ def matches(c, s, toks):
     near = sconsts | {x + 1 for x in sconsts} | {x - 1 for x in sconsts}
     macro_vals = set(c.get("macro_values", {}).values())
     by_value = False
+    snames = None
     # an ordering against one constant (`x >= 3`, `MAX < y`): the tolerance of one is exactly the change of strictness,
     # `x >= k` is `k <= x`, `k-1 < x`, or the negation of `x < k` / `x <= k-1` - not `x >= k+1`
     bound = _c_bound(c)
@@ -305,6 +306,11 @@ def matches(c, s, toks):
     for n in c["names"]:
         nl = n.lower()
         if nl in own or n in s.names:
+            continue
+        if snames is None:
+            snames = set(structural(s)["names"])
+        if n in snames or c.get("raw", {}).get(n) in snames:
+            # the named constant is inside the atom (a range built from it and stored in a local first)
             continue
         rawn = c.get("raw", {}).get(n)
         if rawn and (rawn.lower() in own or rawn in s.names):
@@ -345,7 +351,8 @@ def structural(s, fn=None):
             continue
         t = x[0]
         if t == "f":
-            fields.add(str(x[2]))
+            if not str(x[2]).isdigit():        # tuple positions are not names
+                fields.add(str(x[2]))
         elif t == "c":
             if isinstance(x[1], int):
                 consts.add(str(x[1]))
